@@ -13,7 +13,7 @@ RULE = ("One generated string (nucleotide ACGTU / +N / full IUPAC / all-N, prote
         "by hash of the case.")
 ASSUMPTIONS = ["gap penalties are the type's defaults: the property quantifies over alignment types, not over user penalties (with gap open 0, X:X scoring <= 0 makes the gap-free alignment non-optimal)",
                "the kind used to pick admissible types is the one kalign reports for the string (C13 owns detection)"]
-BUDGET = {"quick": dict(examples=160, workers=12, seconds=75), "thorough": dict(examples=900, workers=16, seconds=600)}
+BUDGET = {"quick": dict(examples=130, workers=12, seconds=70), "thorough": dict(examples=900, workers=16, seconds=600)}
 
 ALPHAS = [gen.NUC, gen.NUC_U, gen.NUC_N, gen.IUPAC, "N", gen.AA, gen.AA_X, "X", "BZX", "ACGTN"]
 
@@ -83,3 +83,32 @@ def check(case):
     if r["alnlen"] != len(s):
         return engine.violation({"what": "alignment length %d != %d" % (r["alnlen"], len(s))}, classes=cl)
     return engine.ok(k >= 3 or len(s) >= 2, cl, {"s": s[:60], "len": len(s), "copies": k, "cfg": cfg, "entry": case["entry"]})
+
+
+# ------------------------------------------------------------------ enumerated size sweeps
+
+def extra(tier, seed, stats):
+    import random
+    from concurrent.futures import ThreadPoolExecutor
+    from vlib import sweeps
+    quick = tier == "quick"
+    cases_ = []
+    for L in sweeps.length_sweep(quick):
+        rnd = random.Random(L * 7919 + seed)
+        alpha = ALPHAS[L % len(ALPHAS)]
+        s = "".join(rnd.choice(alpha) for _ in range(L))
+        cases_.append({"s": s, "copies": 2 + L % 4, "type_pick": L % 4, "threads": 1 + L % 4, "entry": "arr" if L % 2 else "file"})
+    for n in sweeps.count_sweep(quick):
+        rnd = random.Random(n * 104729 + seed)
+        alpha = ALPHAS[n % len(ALPHAS)]
+        s = "".join(rnd.choice(alpha) for _ in range(5 + n % 40))
+        cases_.append({"s": s, "copies": n, "type_pick": n % 4, "threads": 1 + n % 4, "entry": "arr" if n % 2 else "file"})
+    with ThreadPoolExecutor(max_workers=12) as ex:
+        res = list(ex.map(check, cases_))
+    out = []
+    for c, r in zip(cases_, res):
+        stats.record(c, r)
+        if r["status"] == "violation":
+            out.append({"case": c, "detail": r["detail"], "kind": r.get("kind")})
+    stats.extra["sweep"] = "every string length in the length sweep and every number of copies in the count sweep (vlib/sweeps.py), enumerated"
+    return out
